@@ -16,6 +16,7 @@ struct SymEnt {
         size_t size;
         int type;
         int shndx;
+        std::string file; // STT_FILE entry preceding a local symbol ("" for globals)
 };
 static std::unordered_map<std::string, SymEnt> g_syms;
 static std::vector<SymEnt> g_sorted;
@@ -57,13 +58,19 @@ static void load()
                 Elf64_Sym *sy = (Elf64_Sym *) (m + sh[i].sh_offset);
                 size_t n = sh[i].sh_size / sizeof(Elf64_Sym);
                 const char *str = (const char *) (m + sh[sh[i].sh_link].sh_offset);
+                std::string cur_file;
                 for (size_t k = 0; k < n; k++) {
+                        int ty = ELF64_ST_TYPE(sy[k].st_info);
+                        if (ty == STT_FILE) {
+                                cur_file = str + sy[k].st_name;
+                                continue;
+                        }
                         if (sy[k].st_name == 0 || sy[k].st_shndx == SHN_UNDEF)
                                 continue;
-                        int ty = ELF64_ST_TYPE(sy[k].st_info);
-                        if (ty == STT_FILE || ty == STT_SECTION)
+                        if (ty == STT_SECTION)
                                 continue;
-                        SymEnt e{ str + sy[k].st_name, (uintptr_t) sy[k].st_value, (size_t) sy[k].st_size, ty, sy[k].st_shndx };
+                        SymEnt e{ str + sy[k].st_name, (uintptr_t) sy[k].st_value, (size_t) sy[k].st_size, ty, sy[k].st_shndx,
+                                  ELF64_ST_BIND(sy[k].st_info) == STB_LOCAL ? cur_file : std::string() };
                         // prefer global definitions if duplicates (local labels in several objects)
                         auto it = g_syms.find(e.name);
                         if (it == g_syms.end() || ELF64_ST_BIND(sy[k].st_info) != STB_LOCAL)
@@ -120,6 +127,18 @@ std::vector<std::pair<std::string, uintptr_t>> symbols_in(uintptr_t lo, uintptr_
         std::vector<std::pair<std::string, uintptr_t>> v;
         for (auto &e : g_sorted)
                 if (e.addr >= lo && e.addr < hi)
+                        v.emplace_back(e.name, e.addr);
+        return v;
+}
+
+// local symbols in [lo,hi) that belong to a source file whose name starts with 'file_prefix'
+std::vector<std::pair<std::string, uintptr_t>> symbols_in_of_file(uintptr_t lo, uintptr_t hi, const char *file_prefix)
+{
+        load();
+        std::vector<std::pair<std::string, uintptr_t>> v;
+        size_t pl = strlen(file_prefix);
+        for (auto &e : g_sorted)
+                if (e.addr >= lo && e.addr < hi && e.file.compare(0, pl, file_prefix) == 0 && !e.file.empty())
                         v.emplace_back(e.name, e.addr);
         return v;
 }
